@@ -397,6 +397,24 @@ def decide_path(ob, path, claims, assume_f, replay_fn, dump=None):
     negz = neg.z3()
     monos = set(core.CTX.monos)
     base = _base_constraints(ob, path, assume_f) + core.mono_facts(monos)
+    # harness lemmas: prove each one exactly from the path's constraints, then use it
+    if getattr(path, "lemmas", None):
+        names_ = [n for n, _, _, _ in ob.inputs]
+        proved = []
+        for lem in path.lemmas:
+            core.CTX.monos = set(monos)
+            lz = lem.z3()
+            mset = set(core.CTX.monos)
+            t_ = time.time()
+            rl, _ = external_check(base + proved + _exact_constraints(path, mset) + [z3.Not(lz)], [], min(60.0, ob.exact_timeout_ms / 1000.0))
+            pv.queries += 1
+            pv.solver_s += time.time() - t_
+            if rl != "unsat":
+                pv.status = "inconclusive"
+                pv.detail = f"harness lemma could not be proved ({rl}): {lem}"
+                return pv
+            proved.append(lz)
+        base = base + proved
     s = _solver(ob.solver_timeout_ms)
     s.add(base)
     s.add(negz)
